@@ -467,6 +467,8 @@ def main(tier):
     run.assumptions = ["work inside derived Clone/drop glue (quadratic in the worst case) is not a counted step of the property"]
     if F is None:
         return run.finish("loop/recursion obligations", "./check C02 --tier %s" % tier)
+    from ..canary import loop_canary
+    loop_canary(run)
     reach = F.reach()
     kmax = []
     counts = defaultdict(int)
